@@ -199,9 +199,12 @@ def snell(n1, n2, theta1):
         raise Exception('The real part of *n1* and *n2* can not be <= 0.')
 
     if np.all(np.isreal(n1)) and np.all(np.isreal(n2)):
+        # Drop the zero imaginary part of complex-typed input.
+        n1, n2 = np.real(n1), np.real(n2)
         theta2 = np.arcsin(n1 * np.sin(np.deg2rad(theta1)) / n2)
 
     elif np.all(np.isreal(n1)):
+        n1 = np.real(n1)
         mr2 = (np.real(n2) / n1)**2
         mi2 = (np.imag(n2) / n1)**2
         sin1 = np.sin(np.deg2rad(theta1))
